@@ -57,6 +57,10 @@ def sources(tier, seed, ctx):
     for ng in ((60, 120) if tier == 'quick' else (60, 120, 200)):
         for order in ('near-last', 'near-first', 'alternating'):
             srcs.append({'k': 'trav', 'dense': ng, 'order': order, 'vs': ng, 'ts': ng + len(order)})
+    # deep circuits: one path longer than the interpreter's recursion limit, stored in and against topological order
+    for depth in ([1500] if tier == 'quick' else [1500, 4000]):
+        srcs.append({'k': 'deep', 'depth': depth})
+        srcs.append({'k': 'deep', 'depth': depth, 'rev': True})
     ncyc = 600 if tier == 'quick' else 8000
     for j in range(ncyc):
         srcs.append({'k': 'cycle', 'seed': rng.randrange(10**9)})
@@ -131,6 +135,39 @@ def record(src):
         if other:
             case['raised'] = False
             case['other_exc'] = other
+        return case
+    if src['k'] == 'deep':
+        from cirbo.core.circuit import gate as G
+        n = src['depth']
+        c = Circuit()
+        c.add_inputs(['x', 'y'])
+        names = []
+        for k in range(n):
+            c.emplace_gate(f'g{k}', G.XOR if k % 2 else G.NOT, ('x',) if k == 0 else (f'g{k - 1}', 'y') if k % 2 else (f'g{k - 1}',))
+            names.append(f'g{k}')
+        c.set_outputs([f'g{n - 1}'])
+        if src.get('rev'):
+            for l in names[::-1]:
+                c.rename_gate(l, l + '_')
+        case = {'kind': 'travdeep', 'c': project(c, users=False, blocks=False), 'orders': [], 'travs': [], 'src': src}
+        for inv in (False, True):
+            try:
+                case['orders'].append({'inv': inv, 'order': [g.label for g in c.top_sort(inverse=inv)], 'exc': ''})
+            except Exception as e:
+                case['orders'].append({'inv': inv, 'order': [], 'exc': type(e).__name__})
+        for mode in ('DFS', 'BFS'):
+            for inv in (False, True):
+                ev, exc = _trav(c, mode, inv, None, {'enter', 'exit', 'unvisited', 'end'}, False)
+                case['travs'].append({'mode': mode, 'inverse': inv, 'ev': ev, 'exc': exc})
+        raised, other = False, ''
+        try:
+            check_circuit_has_no_cycles(c)
+        except CircuitValidationError:
+            raised = True
+        except Exception as e:
+            other = type(e).__name__
+        if raised or other:
+            case['travs'].append({'mode': 'DFS', 'inverse': False, 'ev': [], 'exc': 'cycle-check:' + (other or 'CircuitValidationError')})
         return case
     if src.get('past'):
         from .. import hist, histgen
